@@ -253,6 +253,21 @@ theorem leElem_int (strict : Bool) (v : Int) :
     leElem strict .b (.int v) = packIntLE 1 v ∧ leElem strict .h (.int v) = packIntLE 2 v
       ∧ leElem strict .i (.int v) = packIntLE 4 v := ⟨rfl, rfl, rfl⟩
 
+/-- **C18.16** formats f and d: the bytes are the little-endian image of the IEEE bit pattern
+(`Float.toBits` / `Float32.toBits`, trusted), and that byte layout loses nothing: every `w`-byte
+bit pattern is recovered from its bytes, in both byte orders.  (What a theorem cannot say here —
+that `toBits` inverts — is the `hdec` hypothesis of C18.13 and is listed in the trusted base.) -/
+theorem ieee_bytes_exact (w : Nat) (o : Order) (u : Nat) (hu : u < 2 ^ (8 * w)) :
+    (orderBytes o (leBytes w u)).length = w
+      ∧ leValue (orderBytes o (orderBytes o (leBytes w u))) = u
+      ∧ (∀ strict x, leElem strict .d x = .ok (leBytes 8 (x.toFloat.toBits.toNat : Int))) := by
+  refine ⟨by rw [orderBytes_length, leBytes_length], ?_, fun _ _ => rfl⟩
+  rw [orderBytes_orderBytes, leValue_leBytes, pow256]
+  have : ((u : Nat) : Int) < 2 ^ (8 * w) := by exact_mod_cast hu
+  exact Int.emod_eq_of_lt (by omega) this
+
+example : leBytes 4 (0x3FC00000 : Nat) = [0x00, 0x00, 0xC0, 0x3F] := by decide   -- 1.5f
+
 end ALV.Props.C18
 
 #write_audit "C18"
